@@ -119,6 +119,7 @@ type Exec struct {
 	nowUnix   int64
 	onceDone  map[*Value]bool
 	auxN      int
+	stack     []*ssa.Function
 	opaque    map[*Term]bool
 	pendingModelT, pendingModelF *Env
 }
@@ -656,6 +657,15 @@ func (w *Worker) runPath(prefix []uint64) {
 	func() {
 		defer func() {
 			if e := recover(); e != nil {
+				where := ""
+				for i := len(ex.stack) - 1; i >= 0 && i >= len(ex.stack)-6; i-- {
+					where += " < " + ex.stack[i].String()
+				}
+				defer func() {
+					if status == "unsupported" || status == "engine-error" {
+						msg += " @" + where
+					}
+				}()
 				switch e := e.(type) {
 				case pathAbort:
 					status = e.kind
@@ -665,7 +675,10 @@ func (w *Worker) runPath(prefix []uint64) {
 					msg = e.msg
 				default:
 					status = "engine-error"
-					msg = fmt.Sprintf("%v\n%s", e, debug.Stack())
+					msg = fmt.Sprintf("%v", e)
+					if r.cfg.Verbose {
+						fmt.Fprintf(os.Stderr, "%v\n%s\n", e, debug.Stack())
+					}
 				}
 			}
 		}()
